@@ -29,6 +29,12 @@ class KnnScan:
     cvar: str
     weight_stores: List[Event] = field(default_factory=list)
     index_store: Optional[Event] = None
+    # the insertion loop, independent of its spelling (`while cur > 0 and ...: cur -= 1` or
+    # `for cur in range(k, 0, -1): if not ...: break`)
+    c: Term = None  # current slot
+    bound_ok: bool = False  # the loop visits slots start, start-1, ..., 1 at most
+    tests: List[Term] = field(default_factory=list)  # continuation tests other than the bound
+    start: Term = None
 
     @property
     def fn(self):
@@ -58,22 +64,49 @@ def _is_weight(v: Term) -> bool:
     return is_matrix_read(v) or is_metric_call(v) or as_selector(v) is not None
 
 
-def find_knn_scans(w: Walker) -> List[KnnScan]:
-    out = []
-    for li in w.loops.values():
-        if li.kind != "while" or len(li.loops) < 2:
-            continue
-        cs = conj(li.cond)
-        # position variable decreasing by one
+def _bubble_view(w: Walker, li: LoopInfo):
+    """(cvar name, current slot term, bound ok?, other continuation tests, start) or None."""
+    from .ir import facts
+    if li.kind == "while":
         cvar = None
         for name, (init, end) in li.carried.items():
             if lin_eq(lin(end), {("phi", li.lid, name): 1, 1: -1}):
                 cvar = name
         if cvar is None:
-            continue
+            return None
         c = ("phi", li.lid, cvar)
+        cs = conj(li.cond)
+        pos = [t for t in cs if t in (("cmp", "<", ("const", 0), c), ("cmp", "<=", ("const", 1), c))]
+        return cvar, c, len(pos) == 1, [t for t in cs if t not in pos], li.carried[cvar][0]
+    if li.kind == "for":
+        d = li.domain
+        if d is None or d[0] != "call" or d[1] != ("builtin", "range") or d[3] or len(d[2]) != 3:
+            return None
+        if d[2][2] not in (("const", -1), ("neg", ("const", 1))):
+            return None
+        c = ("iter", d, li.lid)
+        base = set(facts(li.guards))
+        tests = []
+        for e in w.events:
+            if e.kind == "break" and e.loops and e.loops[-1] == li.lid:
+                own = [f for f in facts(e.guards) if f not in base]
+                tests.append(mk_not(own[0]) if len(own) == 1 else ("not", ("and", tuple(own))))
+        name = next((n for n, v in li.targets.items() if v == c), "cur")
+        return name, c, d[2][1] == ("const", 0), tests, d[2][0]
+    return None
+
+
+def find_knn_scans(w: Walker) -> List[KnnScan]:
+    out = []
+    for li in w.loops.values():
+        if li.kind not in ("while", "for") or len(li.loops) < 2:
+            continue
+        bv = _bubble_view(w, li)
+        if bv is None:
+            continue
+        cvar, c, bound_ok, tests, start = bv
         D = None
-        for t in cs:
+        for t in tests:
             if t[0] == "cmp" and t[1] in ("<", "<=") and t[2][0] == "idx" and t[3][0] == "idx" and t[2][1] == t[3][1]:
                 if t[2][2] == c and lin_eq(lin(t[3][2]), {c: 1, 1: -1}):
                     D = t[2][1]
@@ -85,8 +118,9 @@ def find_knn_scans(w: Walker) -> List[KnnScan]:
         per = w.loops[li.loops[-2]]
         if cand.kind != "for" or per.kind != "for":
             continue
-        slot = li.carried[cvar][0]
+        slot = start
         scan = KnnScan(w, per, cand, li, D, None, slot, cvar)
+        scan.c, scan.bound_ok, scan.tests, scan.start = c, bound_ok, tests, start
         for e in w.events:
             if e.kind == "store" and e.loops == li.loops and e.target == ("idx", D, slot) and _is_weight(e.value):
                 scan.weight_stores.append(e)
@@ -148,10 +182,10 @@ def check_knn_scan(rep, pre: str, scan: KnnScan, graph: Term, allow_self_skip: b
            "the index store must be executed exactly when the distance store is")
     # bubble loop
     bl = scan.bubble
-    c = ("phi", bl.lid, scan.cvar)
-    cs = conj(bl.cond)
-    pos = [t for t in cs if t in (("cmp", "<", ("const", 0), c), ("cmp", "<=", ("const", 1), c))]
-    rep.fn(pre + "KNN-bubble-bound", fn, "while " + show(bl.cond)[:120], len(pos) == 1 and len(cs) == 2,
+    c = scan.c
+    cs = scan.tests
+    rep.fn(pre + "KNN-bubble-bound", fn, "insertion loop continues while " + " and ".join(show(t)[:80] for t in cs),
+           scan.bound_ok and len(cs) == 1,
            "the insertion loop must be `cur > 0 and d[cur] < d[cur-1]`", line=bl.line)
     cm1 = None
     for t in cs:
@@ -170,7 +204,7 @@ def check_knn_scan(rep, pre: str, scan: KnnScan, graph: Term, allow_self_skip: b
     others = [e for e in st if not (e.target[0] == "idx" and e.target[1] in (scan.D, scan.N))]
     for e in others:
         rep.ev(pre + "KNN-bubble-stray", e, False, "unexpected store inside the insertion loop")
-    rep.fn(pre + "KNN-start", fn, "insertion starts at the slot that was written", bl.carried[scan.cvar][0] == scan.slot,
+    rep.fn(pre + "KNN-start", fn, "insertion starts at the slot that was written", scan.start == scan.slot,
            "the insertion loop does not start at slot k", line=bl.line)
     # reset of the distance buffer at the top of every query
     fills = [e for e in w.events if e.kind == "call" and e.name == "fill" and e.target == ("attr", scan.D, "fill")]
